@@ -369,7 +369,7 @@ fn judge(case: &Case) -> (Option<Viol>, Obs) {
             }),
             obs,
         ),
-        RunEnd::Runaway => {
+        RunEnd::Runaway(_) => {
             obs.order_anomaly = true;
             (None, obs)
         }
